@@ -764,6 +764,21 @@ where
             n += 1;
         }
         ensure!(n == v.len(), "iter() yields {n} elements, pushed {}", v.len());
+        // an iterator cloned mid-way yields the same tail
+        {
+            let mut it = item.iter();
+            let half = v.len() / 2;
+            for _ in 0..half {
+                let _ = it.next();
+            }
+            let mut n = half;
+            for y in it.clone().take(v.len() + 1) {
+                ensure!(n < v.len(), "cloned iterator yields more than the remaining elements");
+                I::check(y, &v[n]).map_err(|e| format!("cloned iterator position {n}: {e}"))?;
+                n += 1;
+            }
+            ensure!(n == v.len(), "cloned iterator yields {} elements after {half}, expected {}", n - half, v.len() - half);
+        }
         let mut n = 0;
         for y in item.into_iter().take(v.len() + 1) {
             ensure!(n < v.len(), "into_iter() yields more than the {} pushed elements", v.len());
